@@ -39,6 +39,7 @@ PROPERTIES = {
         "level_text": "bounded symbolic exploration of schedules: the schedule is a vector of 14 solver variables consumed at the decision "
                       "points of the real server code; oracle = linearisability with contiguous device blocks against the sequential runs + per-request isolation replay",
         "level_note": "trusted: CrossHair/z3, the simulated socket layer and scheduler, the simulated device",
+        "design_ref": "DESIGN.md section 7, 'C12 as built'",
         "technique": "CrossHair symbolic execution of the real accept loop / request handler with solver-chosen thread schedules "
                      "(controlled scheduler over real threads), z3",
     },
